@@ -173,6 +173,24 @@ pub fn validator_checks(dir: &std::path::Path) -> Vec<String> {
     if t4 == t3 {
         checks.push("C18:etag-unchanged-after-mtime-change".into());
     }
+    // modification times that differ only below a microsecond, and only in the seconds
+    let set = |ns: u32, secs: u64| {
+        let f = std::fs::OpenOptions::new().write(true).open(&p).unwrap();
+        f.set_modified(std::time::SystemTime::UNIX_EPOCH + std::time::Duration::new(secs, ns)).unwrap();
+    };
+    set(123_456_100, 1_600_000_000);
+    let ta = tag(&p);
+    set(123_456_800, 1_600_000_000);
+    let tb = tag(&p);
+    if ta == tb {
+        checks.push("C18:etag-unchanged-after-sub-microsecond-mtime-change".into());
+    }
+    set(123_456_800, 1_600_000_001);
+    let tc = tag(&p);
+    if tc == tb {
+        checks.push("C18:etag-unchanged-after-one-second-mtime-change".into());
+    }
+    set(123_456_789, 1_600_000_000);
     // replace: same length and mtime, different inode
     let q = dir.join("v2");
     std::fs::copy(&p, &q).unwrap();
